@@ -1,7 +1,7 @@
 SPECIFICATION Spec
 CONSTANTS
   MaxDims = 1
-  MaxSteps = 4
+  MaxSteps = 5
   Acts = {"Alias", "Range", "Delete", "Setters", "Arr", "Reopen"}
   ArrRank = 1
   Numeric = TRUE
